@@ -635,4 +635,4 @@ MANIFEST = {
     'design_ref': 'DESIGN.md 3/C20',
 }
 MANIFEST['note'] += (' Also decided here (necessary conditions shared between properties or added after the independent '
-                     'change rounds, DESIGN.md 8.7): operations that raise with a secret operand (KeyError of a lookup, failing conversions) as taint sources, scoped by local handlers.')
+                     'change rounds, DESIGN.md 8.7): operations that raise with a secret operand (KeyError of a lookup, failing conversions) as taint sources, scoped by local handlers. Rounds 7-8: prf(PSK, key pad text) is a secret by value; the table of connection records is a credential container; the YAML parser gets a stream.')
